@@ -426,6 +426,8 @@ def generate_facts(repo):
     F('CLOSE_SYNCS_BEFORE_TAKE', lambda: (before(c, 'fsyncdata()', 'active_blob.take()', 'close_active_blob') and
       no_await_between(c, 'active_blob.take()', '.push(', 'close_active_blob')), 'src/storage/core.rs',
       'close_active_blob: the blob is synced while still active; no suspension between taking it out and pushing it')
+    F('CLOSE_SYNCS_UNDER_EXCLUSIVE_LOCK', lambda: (before(c, 'self.safe.write().await', 'fsyncdata()', 'close_active_blob') and 'self.safe.read().await' not in c), 'src/storage/core.rs',
+      'close_active_blob: the exclusive storage lock is taken before the blob is synced and is not given up in between (no writer can append after the sync)')
     r = Lazy(lambda: body_with(core, 'restore_active_blob', ['.pop()']))
     F('RESTORE_LOADS_BEFORE_POP', lambda: (before(r, 'load_index()', '.pop()', 'restore_active_blob') and
       no_await_between(r, '.pop()', 'active_blob = Some(', 'restore_active_blob')), 'src/storage/core.rs',
